@@ -109,8 +109,10 @@ bool UndoHistoryImpl::mergeEvent(time_t now, const char *msg, char *buf, size_t 
     if(history_pos == 0)
         return false;
     for(int i=history_pos-1; i>=0; --i) {
+        //entries are not sorted by time (merging refreshes the time stamp
+        //of an older entry), so too old ones have to be skipped
         if(difftime(now, history[i].first) > 2)
-            break;
+            continue;
         if(!strcmp(getUndoAddress(msg),
                     getUndoAddress(history[i].second)))
         {
